@@ -137,42 +137,31 @@ def drive(driver, n, seed, out_path, extra=None, binary=None):
     return run_vh(["drive", "-driver", driver, "-n", str(n), "-seed", str(seed), "-out", out_path] + (extra or []), binary=binary)
 
 # ---------------------------------------------------------------- validation
-def shard_trace(path, nshards, d, tag=""):
-    """Split an event file at reset boundaries into at most nshards files of similar size."""
-    size = os.path.getsize(path)
-    target = max(size // nshards + 1, 1 << 16)
-    shards = []
-    cur = None
-    cur_size = 0
-    idx = 0
-    with open(path, "rb") as f:
-        for line in f:
-            if cur is None or (cur_size >= target and line.startswith(b'{"h":0,"op":"reset"')):
-                if cur:
-                    cur.close()
-                idx += 1
-                p = os.path.join(d, f"shard{tag}-{idx:03d}.ndjson")
-                cur = open(p, "wb")
-                shards.append(p)
-                cur_size = 0
-            cur.write(line)
-            cur_size += len(line)
-    if cur:
-        cur.close()
-    return shards
+def shard_traces(paths, nshards, d):
+    """Deal the reset-delimited cases of all event files round-robin into nshards files (cases are
+    independent; dealing them spreads expensive neighbours over the shards)."""
+    files = [open(os.path.join(d, f"shard-{i:03d}.ndjson"), "wb") for i in range(nshards)]
+    k = -1
+    for path in paths:
+        with open(path, "rb") as f:
+            for line in f:
+                if k < 0 or line.startswith(b'{"h":0,"op":"reset"'):
+                    k = (k + 1) % nshards
+                files[k].write(line)
+    out = []
+    for fh in files:
+        fh.close()
+        if os.path.getsize(fh.name) > 0:
+            out.append(fh.name)
+        else:
+            os.unlink(fh.name)
+    return out
 
 def validate(trace_paths, timeout=900, shards=None):
     """Validate event traces with TLC (spec/Trace.tla). Returns (bad, stats, info).
     bad: list of dicts {l, tag, dev, kind, trace, event} ; stats: summed counters."""
     d = tlc_dir()
-    all_shards = []
-    total = sum(os.path.getsize(tp) for tp in trace_paths) or 1
-    for ti, tp in enumerate(trace_paths):
-        if os.path.getsize(tp) == 0:
-            continue
-        # shards in proportion to size, NCPU in total (at least one per trace)
-        k = max(1, round((shards or NCPU) * os.path.getsize(tp) / total))
-        all_shards += shard_trace(tp, k, d, tag=str(ti))
+    all_shards = shard_traces([tp for tp in trace_paths if os.path.getsize(tp) > 0], shards or NCPU, d)
     procs = []
     e = dict(os.environ)
     e.pop("JAVA_TOOL_OPTIONS", None)
